@@ -30,10 +30,18 @@ class Interp:
         self.hooks: Dict[str, Any] = {}  # engine callbacks: before_<op> / after_<op>
 
     # -- helpers ------------------------------------------------------------------------
-    def pt(self, p) -> List[float]:
-        if isinstance(p, str):
-            return list(self.points[p])
-        return list(p)
+    def pt(self, p):
+        """a point as the script passes it: list (default), tuple, numpy array or a list of ints where the
+        coordinates are whole numbers - per program (`point_type`)"""
+        v = list(self.points[p]) if isinstance(p, str) else list(p)
+        kind = self.program.get("point_type", "list")
+        if kind == "tuple":
+            return tuple(v)
+        if kind == "array":
+            return np.array(v, dtype=float)
+        if kind == "int_where_whole":
+            return [int(x) if float(x).is_integer() else x for x in v]
+        return v
 
     def edge_data(self, e: Dict[str, Any]):
         cb = self.cb
